@@ -103,6 +103,47 @@ void rotationDerivative(vf::Ctx & c)
   c.check(((sr * v) - sr.R() * v).norm() <= 1e-12 * (1 + v.norm()), "operator*(vector) differs from R()*vector");
 }
 
+
+// history independence of the derivative-carrying rotation helper: one object re-initialised with several angle
+// triples (both init overloads), accessors read in a generated order in between; after every init every accessor
+// must equal, bit for bit, that of a freshly constructed object (whatever K1 says about the values themselves)
+void rotationReuse(vf::Ctx & c)
+{
+  int n = static_cast<int>(c.s.i("n_inits", 2, 5));
+  std::vector<Vector3d> angles;
+  std::vector<int> readsBefore, overload;
+  for (int k = 0; k < n; ++k) {
+    angles.push_back(genAngles(c, "roll", "pitch", "yaw"));
+    overload.push_back(static_cast<int>(c.s.i("init_overload", 0, 1)));
+    readsBefore.push_back(static_cast<int>(c.s.i("reads_mask", 0, 31)));   // which accessors are read after this init
+  }
+  Vector3d v(c.s.r("vx", -100, 100), c.s.r("vy", -100, 100), c.s.r("vz", -100, 100));
+  bool startDefault = c.s.flag("start_from_default_object");
+  c.nontrivial(n >= 2);
+  c.commit();
+
+  SmartRotation3D obj = startDefault ? SmartRotation3D() : SmartRotation3D(angles[0]);
+  for (int k = 0; k < n; ++k) {
+    if (k > 0 || startDefault) {
+      if (overload[k]) {obj.init(angles[k]);} else {obj.init(angles[k][0], angles[k][1], angles[k][2]);}
+    }
+    SmartRotation3D fresh(angles[k][0], angles[k][1], angles[k][2]);
+    int mask = readsBefore[k];
+    // generated subset first (so that a lazily filled cache sees different access patterns), then everything
+    for (int pass = 0; pass < 2; ++pass) {
+      int m = pass == 0 ? mask : 31;
+      if (m & 1) {VF_CHECK(c, obj.R() == fresh.R(), "init #%d: R() of the re-initialised object differs from a fresh object's", k);}
+      if (m & 2) {VF_CHECK(c, obj.dRdAngleAroundXAxis() == fresh.dRdAngleAroundXAxis(), "init #%d: dRdAngleAroundXAxis() of the re-initialised object differs from a fresh object's (stale state)", k);}
+      if (m & 4) {VF_CHECK(c, obj.dRdAngleAroundYAxis() == fresh.dRdAngleAroundYAxis(), "init #%d: dRdAngleAroundYAxis() of the re-initialised object differs from a fresh object's (stale state)", k);}
+      if (m & 8) {VF_CHECK(c, obj.dRdAngleAroundZAxis() == fresh.dRdAngleAroundZAxis(), "init #%d: dRdAngleAroundZAxis() of the re-initialised object differs from a fresh object's (stale state)", k);}
+      if (m & 16) {
+        VF_CHECK(c, obj.dRTdAngles(v) == fresh.dRTdAngles(v), "init #%d: dRTdAngles(v) of the re-initialised object differs from a fresh object's (stale state)", k);
+        VF_CHECK(c, (obj * v) == (fresh * v), "init #%d: operator*(v) of the re-initialised object differs from a fresh object's", k);
+      }
+    }
+  }
+}
+
 // ---------------------------------------------------------------------------------------------------------
 Matrix6 genPsd6(vf::Ctx & c)
 {
@@ -249,62 +290,87 @@ void poseCovariance(vf::Ctx & c)
 template<typename S>
 void lsCovariance(vf::Ctx & c)
 {
+  // a history of 1..3 problems solved with ONE solver object (fixed estimate size); the covariance reported after
+  // each solve must describe that solve (not an earlier one), whatever the observations are
   int p = static_cast<int>(c.s.i("estimate_size", 1, 8));
-  int m = static_cast<int>(c.s.len("data_size", p, 300));
-  if (m < p) {m = p;}
-  size_t path = c.s.pick("path", {1, 1, 1});  // SVD, Cholesky, weighted
+  int nProblems = static_cast<int>(c.s.i("problems", 1, 3));
+  struct Prob {int m; size_t path; double cond, var; bool precond; size_t yClass; uint64_t seed;};
+  std::vector<Prob> probs;
   double condMax = sizeof(S) == 4 ? 30.0 : 1e3;
-  double cond = c.s.rlog("cond_J", 1.0, condMax);
-  double var = c.s.rlog("data_variance", 1e-4, 1e2);
-  bool precond = c.s.flag("diagonal_preconditioner", 3, 4);
-  uint64_t seed = c.s.seed("content_seed");
-  c.nontrivial(precond);
-  if (precond) {c.label("non-identity-preconditioner");}
+  bool anyPrecond = false, zeroY = false;
+  for (int q = 0; q < nProblems; ++q) {
+    Prob pr;
+    pr.m = static_cast<int>(c.s.len("data_size", p, 300));
+    if (pr.m < p) {pr.m = p;}
+    pr.path = c.s.pick("path", {1, 1, 1});  // SVD, Cholesky, weighted
+    pr.cond = c.s.rlog("cond_J", 1.0, condMax);
+    pr.var = c.s.rlog("data_variance", 1e-4, 1e2);
+    pr.precond = c.s.flag("diagonal_preconditioner", 3, 4);
+    pr.yClass = c.s.pick("observations", {4, 1, 1});  // random, all zero (J^T Y = 0), exactly consistent Y = J x
+    pr.seed = c.s.seed("content_seed");
+    anyPrecond = anyPrecond || pr.precond;
+    zeroY = zeroY || pr.yClass == 1;
+    probs.push_back(pr);
+  }
+  c.nontrivial(anyPrecond);
+  if (anyPrecond) {c.label("non-identity-preconditioner");}
+  if (zeroY) {c.label("zero-observations(J^T Y = 0)");}
+  if (nProblems > 1) {c.label("solver-reused");}
   static const char * pn[] = {"svd-path", "cholesky-path", "weighted-path"};
-  c.label(pn[path]);
+  for (const auto & pr : probs) {c.label(pn[pr.path]);}
   c.commit();
 
-  vf::Rng rng(seed);
   using Mat = Eigen::Matrix<S, -1, -1>;
   using Vec = Eigen::Matrix<S, -1, 1>;
-  Eigen::MatrixXd A = Eigen::MatrixXd::NullaryExpr(m, p, [&]() {return rng.gauss();});
-  Eigen::HouseholderQR<Eigen::MatrixXd> qa(A);
-  Eigen::MatrixXd U = qa.householderQ() * Eigen::MatrixXd::Identity(m, p);
-  Eigen::MatrixXd B = Eigen::MatrixXd::NullaryExpr(p, p, [&]() {return rng.gauss();});
-  Eigen::HouseholderQR<Eigen::MatrixXd> qb(B);
-  Eigen::MatrixXd V = qb.householderQ();
-  Eigen::VectorXd sv(p);
-  for (int i = 0; i < p; ++i) {sv[i] = (p == 1) ? 1.0 : std::pow(cond, -static_cast<double>(i) / (p - 1));}
-  Eigen::MatrixXd J = U * sv.asDiagonal() * V.transpose();
-  Eigen::VectorXd w(m), diagA(p), bc(p);
-  for (int i = 0; i < m; ++i) {w[i] = (path == 2) ? rng.uniform(0.5, 2.0) : 1.0;}
-  for (int i = 0; i < p; ++i) {diagA[i] = precond ? std::pow(10.0, rng.uniform(-1, 1)) : 1.0; bc[i] = precond ? rng.uniform(-1, 1) : 0.0;}
-
   LeastSquares<S> ls(static_cast<size_t>(p));
-  ls.setDataSize(static_cast<size_t>(m));
-  ls.getJ() = J.template cast<S>();
-  ls.getY() = Vec::NullaryExpr(m, [&]() {return static_cast<S>(rng.gauss());});
-  ls.getW() = w.template cast<S>();
-  if (precond) {ls.setPreconditionner(Mat(diagA.template cast<S>().asDiagonal()), Vec(bc.template cast<S>()));}
-  if (path == 0) {ls.estimateUsingSVD();} else if (path == 1) {ls.estimateUsingCholeskyDecomposition();} else {ls.weightedEstimate();}
-  Mat cov = ls.computeEstimateCovariance(static_cast<S>(var));
+  int idx = 0;
+  for (const Prob & pr : probs) {
+    const int m = pr.m;
+    vf::Rng rng(pr.seed);
+    Eigen::MatrixXd A = Eigen::MatrixXd::NullaryExpr(m, p, [&]() {return rng.gauss();});
+    Eigen::HouseholderQR<Eigen::MatrixXd> qa(A);
+    Eigen::MatrixXd U = qa.householderQ() * Eigen::MatrixXd::Identity(m, p);
+    Eigen::MatrixXd B = Eigen::MatrixXd::NullaryExpr(p, p, [&]() {return rng.gauss();});
+    Eigen::HouseholderQR<Eigen::MatrixXd> qb(B);
+    Eigen::MatrixXd V = qb.householderQ();
+    Eigen::VectorXd sv(p);
+    for (int i = 0; i < p; ++i) {sv[i] = (p == 1) ? 1.0 : std::pow(pr.cond, -static_cast<double>(i) / (p - 1));}
+    Eigen::MatrixXd J = U * sv.asDiagonal() * V.transpose();
+    Eigen::VectorXd w(m), diagA(p), bc(p), xs(p);
+    for (int i = 0; i < m; ++i) {w[i] = (pr.path == 2) ? rng.uniform(0.5, 2.0) : 1.0;}
+    for (int i = 0; i < p; ++i) {diagA[i] = pr.precond ? std::pow(10.0, rng.uniform(-1, 1)) : 1.0; bc[i] = pr.precond ? rng.uniform(-1, 1) : 0.0; xs[i] = rng.gauss();}
 
-  // reference: var * A (Jw^T Jw)^-1 A in double, from the S-typed inputs
-  Eigen::MatrixXd Jw = ls.getJ().template cast<double>();   // weighted path leaves W*J in place; recompute from inputs instead
-  Jw = J.template cast<S>().template cast<double>();
-  Eigen::VectorXd wS = w.template cast<S>().template cast<double>();
-  for (int i = 0; i < m; ++i) {Jw.row(i) *= wS[i];}
-  Eigen::MatrixXd N = Jw.transpose() * Jw;
-  Eigen::MatrixXd Ninv = N.ldlt().solve(Eigen::MatrixXd::Identity(p, p));
-  Eigen::MatrixXd Ad = diagA.template cast<S>().template cast<double>().asDiagonal();
-  Eigen::MatrixXd ref = static_cast<double>(static_cast<S>(var)) * Ad * Ninv * Ad;
-  double eps = std::numeric_limits<S>::epsilon();
-  double condN = cond * cond * (path == 2 ? 16 : 1);
-  double tol = 64 * eps * condN * p + 1e-12;
-  double err = (cov.template cast<double>() - ref).norm() / ref.norm();
-  c.maxStat(sizeof(S) == 4 ? "ls-covariance-relative-error/tol(float)" : "ls-covariance-relative-error/tol(double)", err / tol);
-  VF_CHECK(c, err <= tol, "estimate covariance differs from variance * A (J^T J)^-1 A by %.3g relative (tol %.3g; p=%d m=%d cond(J)=%.3g path=%s precond=%d)",
-    err, tol, p, m, cond, pn[path], precond);
+    ls.setDataSize(static_cast<size_t>(m));
+    ls.getJ().topRows(m) = J.template cast<S>();
+    Vec Y(m);
+    if (pr.yClass == 1) {Y.setZero();} else if (pr.yClass == 2) {Y = (J.template cast<S>() * xs.template cast<S>());} else {
+      Y = Vec::NullaryExpr(m, [&]() {return static_cast<S>(rng.gauss());});
+    }
+    ls.getY().head(m) = Y;
+    ls.getW().head(m) = w.template cast<S>();
+    if (pr.precond) {ls.setPreconditionner(Mat(diagA.template cast<S>().asDiagonal()), Vec(bc.template cast<S>()));} else {
+      ls.setPreconditionner(Mat(Mat::Identity(p, p)), Vec(Vec::Zero(p)));
+    }
+    if (pr.path == 0) {ls.estimateUsingSVD();} else if (pr.path == 1) {ls.estimateUsingCholeskyDecomposition();} else {ls.weightedEstimate();}
+    Mat cov = ls.computeEstimateCovariance(static_cast<S>(pr.var));
+
+    // reference: var * A (Jw^T Jw)^-1 A in double, from the S-typed inputs
+    Eigen::MatrixXd Jw = J.template cast<S>().template cast<double>();
+    Eigen::VectorXd wS = w.template cast<S>().template cast<double>();
+    for (int i = 0; i < m; ++i) {Jw.row(i) *= wS[i];}
+    Eigen::MatrixXd N = Jw.transpose() * Jw;
+    Eigen::MatrixXd Ninv = N.ldlt().solve(Eigen::MatrixXd::Identity(p, p));
+    Eigen::MatrixXd Ad = diagA.template cast<S>().template cast<double>().asDiagonal();
+    Eigen::MatrixXd ref = static_cast<double>(static_cast<S>(pr.var)) * Ad * Ninv * Ad;
+    double eps = std::numeric_limits<S>::epsilon();
+    double condN = pr.cond * pr.cond * (pr.path == 2 ? 16 : 1);
+    double tol = 64 * eps * condN * p + 1e-12;
+    double err = (cov.template cast<double>() - ref).norm() / ref.norm();
+    c.maxStat(sizeof(S) == 4 ? "ls-covariance-relative-error/tol(float)" : "ls-covariance-relative-error/tol(double)", err / tol);
+    VF_CHECK(c, cov.allFinite() && err <= tol, "solve #%d of %d on one solver: estimate covariance differs from variance * A (J^T J)^-1 A by %.3g relative (tol %.3g; p=%d m=%d cond(J)=%.3g path=%s precond=%d observations=%s)",
+      idx, nProblems, err, tol, p, m, pr.cond, pn[pr.path], pr.precond, pr.yClass == 1 ? "all zero" : (pr.yClass == 2 ? "exactly consistent" : "random"));
+    idx++;
+  }
 }
 
 const std::vector<vf::Sub> kSubs = {
@@ -312,15 +378,20 @@ const std::vector<vf::Sub> kSubs = {
     "roll, yaw boundary-biased in [-pi,pi], |pitch| <= pi/2-0.05, vector in [-100,100]^3; reported dR/d(angle) compared with "
     "Richardson-extrapolated central differences (h=1e-3) of the library's own R(), tolerance 1e-8; on mismatch compared with "
     "truth + the recorded K1 term. Non-trivial: all three angles non-zero."},
+  {"rotation_reuse", rotationReuse,
+    "one SmartRotation3D object re-initialised 2..5 times (both init overloads, optionally starting from a default-constructed "
+    "object) with a generated subset of accessors read after each init; every accessor must be bit-equal to a fresh object's. "
+    "Non-trivial: every case (>= 2 initialisations)."},
   {"pose_covariance", poseCovariance,
     "pose attitude and attitude after the transform both drawn with |pitch| <= pi/2-0.05 (the rigid transform is derived from them; "
     "1 in 10 is the identity), positions/translations in +-1e3, covariance Q diag(lambda) Q^T with 4 decades of spread, 1 in 4 rank 4; "
     "reported covariance compared with J C J^T, J = finite-difference Jacobian of the library's own operator*(Affine3d, Pose3D) "
     "(relative 1e-6); on mismatch compared with the recorded K2 formula (relative 1e-9). Non-trivial: non-identity transform."},
   {"ls_covariance_double", lsCovariance<double>,
-    "estimate size 1..8, data size up to 300, J = U diag(s) V^T with cond(J) <= 1e3 (30 for float), SVD / Cholesky / weighted path, "
-    "diagonal preconditioner with entries 0.1..10 and an offset; covariance compared with variance * A (J^T J)^-1 A computed in double. "
-    "Non-trivial: non-identity preconditioner."},
+    "histories of 1..3 problems on ONE solver (estimate size 1..8, data size up to 300 each, J = U diag(s) V^T with cond(J) <= 1e3 "
+    "(30 for float), SVD / Cholesky / weighted path, diagonal preconditioner with entries 0.1..10 and an offset or none, observations "
+    "random / all zero / exactly consistent); after every solve the covariance is compared with variance * A (J^T J)^-1 A computed "
+    "in double for THAT problem. Non-trivial: a non-identity preconditioner in the history."},
   {"ls_covariance_float", lsCovariance<float>,
     "as ls_covariance_double with float scalars"},
 };
